@@ -423,6 +423,54 @@ func prosumerSecondSubscribe() h.Scenario {
 	}}
 }
 
+// A callback that takes its time: it returns only when the Prosumer has polled again. A Prosumer that runs its
+// callbacks in the polling goroutine does not poll meanwhile (the broker would take it offline after a heartbeat);
+// here it would wait for itself. The messages still reach the callback in order.
+func prosumerSlowCallback() h.Scenario {
+	name := "prosumer/callback-waits-for-the-next-poll"
+	return h.Scenario{Name: name, Quick: 2, Thorough: 3, Run: func(ch vs.Chooser, trace bool) (*vs.Sched, h.Outcome) {
+		var got []string
+		s := vs.Run(ch, vs.Config{Trace: trace}, func() {
+			client := core.NewClient("mock://unused")
+			p := push.NewProsumer(client, "c1")
+			batches := []map[string][]push.Message{
+				{"t": {{Data: "m1", From: "p"}}},
+				{"t": {{Data: "m2", From: "p"}, {Data: "m3", From: "p"}}},
+			}
+			polledAgain := make(chan struct{}, 4)
+			var next vs.Var[int]
+			p.VerifSetMessageProxy(func() (map[string][]push.Message, error) {
+				vs.Point("poll")
+				i := next.Get()
+				next.Set(i + 1)
+				if i >= 1 {
+					vs.Send(polledAgain, struct{}{})
+				}
+				if i < len(batches) {
+					return batches[i], nil
+				}
+				return nil, nil
+			})
+			first := true
+			p.VerifSetCallback("t", func(m push.Message) {
+				if first {
+					first = false
+					vs.Recv(polledAgain) // a slow callback: the next poll is on its way before it returns
+				}
+				got = append(got, fmt.Sprint(m.Data))
+			})
+			p.VerifPollLoop()
+		})
+		o := h.Outcome{Key: strings.Join(got, ",")}
+		if len(s.Hangs) == 0 && !s.Pruned && s.Aborted == "" {
+			if strings.Join(got, ",") != "m1,m2,m3" {
+				o.Viol = append(o.Viol, h.V{Sig: "prosumer|callbacks-out-of-order", What: fmt.Sprintf("%s: batches [m1] then [m2 m3] reached the callback as %v", name, got)})
+			}
+		}
+		return s, o
+	}}
+}
+
 // inOrder: got is a subsequence of want, whole batches aside.
 func inOrder(got, want []string) bool {
 	j := 0
@@ -460,6 +508,6 @@ func main() {
 	for _, sp := range specs {
 		scen = append(scen, brokerScenario(sp))
 	}
-	scen = append(scen, prosumerScenario(), prosumerSecondSubscribe())
+	scen = append(scen, prosumerScenario(), prosumerSecondSubscribe(), prosumerSlowCallback())
 	h.Main(ID, scen, nil)
 }
